@@ -50,6 +50,20 @@ SX_ADAPTORS = SX_CLOSURE_ADAPTORS | {'enumerate', 'zip', 'rev', 'skip', 'take', 
 SX_OPT_RE = re.compile(r'^std::(option::Option|result::Result)::<.*>::(\w+)(::<.*>)?$')
 
 
+def strip_generic_args(name):
+    """`a::b::f::<W, T>` -> `a::b::f`"""
+    if not name.endswith('>'): return name
+    d = 0; i = len(name) - 1
+    while i >= 0:
+        ch = name[i]
+        if ch == '>' and not (i > 0 and name[i - 1] == '-'): d += 1
+        elif ch == '<':
+            d -= 1
+            if d == 0: break
+        i -= 1
+    return name[:i - 2] if i >= 2 and name[i - 2:i] == '::' else name
+
+
 def _hp(p):
     """hashable projection"""
     if isinstance(p, dict):
@@ -191,9 +205,12 @@ class SxPath:
 
 
 class Sx:
-    def __init__(self, ctx, body, oracle=None, max_visits=2, max_paths=1500, max_steps=400000, depth=0):
+    def __init__(self, ctx, body, oracle=None, max_visits=2, max_paths=1500, max_steps=400000, depth=0, enter=None):
         self.ctx = ctx; self.F = ctx.F; self.b = body; self.o = oracle or SxOracle()
         self.max_visits = max_visits; self.max_paths = max_paths; self.max_steps = max_steps; self.depth = depth
+        # enter(callee body) -> bool: calls of crate functions that are stepped into (every returning path of the callee continues
+        # the caller's path), so that a rule reads the same value whether a clause sits in a helper or in its caller
+        self.enter = enter
 
     # ---------------------------------------------------------------- values
     def const(self, o):
@@ -406,13 +423,32 @@ class Sx:
         env = {1: envv}
         for i, a in enumerate(args): env[2 + i] = a
         try:
-            ps = Sx(self.ctx, cb, self.o, depth=self.depth + 1, max_paths=60).run(0, env, assume=st.assume)
+            ps = Sx(self.ctx, cb, self.o, depth=self.depth + 1, max_paths=60, enter=self.enter).run(0, env, assume=st.assume)
         except SxLimit:
             return None
         rets = [p for p in ps if p.end == 'return']
         if len(rets) != 1 or rets[0].value is None: return None
         st.events.extend(rets[0].events)
         return rets[0].value
+
+    def entered(self, t, args, st):
+        """paths through the callee of call terminator `t` if it is a crate function the rule wants looked through, else None.
+        A `&mut` to a place of the caller is passed as a reference to a scratch local holding its current value; what the callee
+        leaves there is written back to the caller's place on return."""
+        if self.enter is None or self.depth >= 3: return None
+        name = t['r'] or t['f']
+        cb = self.F.bodies.get(name) or self.F.bodies.get(strip_generic_args(name))
+        if cb is None or cb is self.b or cb.kind != 'fn' or cb.argc != len(args) or not self.enter(cb): return None
+        env = {}; back = []
+        for i, a in enumerate(args):
+            if a[0] == 'lref':
+                env[100000 + i] = self.deref(a, st); env[1 + i] = ('lref', 100000 + i, ()); back.append((100000 + i, a))
+            else: env[1 + i] = a
+        try:
+            ps = Sx(self.ctx, cb, self.o, depth=self.depth + 1, max_paths=60, enter=self.enter).run(0, env, assume=st.assume)
+        except (SxLimit, RecursionError):
+            return None
+        return (ps, back) if all(p.end in ('return', 'panic') for p in ps) and any(p.end == 'return' for p in ps) else None
 
     def call(self, bi, t, args, st):
         name = t['r'] or t['f']; ri = t.get('ri') or {}
@@ -665,6 +701,17 @@ class Sx:
                     st.bb = t['t']; continue
                 if k == 'call':
                     args = [self.op(a, st) for a in t['args']]
+                    sub = self.entered(t, args, st) if t['t'] >= 0 else None
+                    if sub is not None:
+                        for p in sub[0]:
+                            s2 = st.fork(); s2.assume = dict(p.assume); s2.events = st.events + [('enter', strip_generic_args(t['r'] or t['f']).split('::')[-1], t['r'] or t['f'], tuple(args), bi, p.value)] + p.events
+                            if p.end == 'return' and p.value is not None:
+                                for sid, a in sub[1]:
+                                    if sid in p.env: self.wr({'l': a[1], 'p': [_up(q) for q in a[2]]}, p.env[sid], s2)
+                                self.wr(t['dst'], p.value, s2); s2.bb = t['t']; stack.append(s2)
+                            else:
+                                out.append(SxPath(s2, 'panic', bi, None))
+                        break
                     res = self.call(bi, t, args, st)
                     if t['t'] < 0:
                         out.append(SxPath(st, 'panic', bi, None)); break
@@ -772,10 +819,10 @@ def table_effects(ctx, body, region):
     return eff
 
 
-def sx_paths(ctx, rule, template, body, oracle, start=0, stops=(), env=None):
+def sx_paths(ctx, rule, template, body, oracle, start=0, stops=(), env=None, enter=None):
     """symbolic paths, or None (and a violation: no verdict is possible) when the function is too large to enumerate"""
     try:
-        return Sx(ctx, body, oracle).run(start, env, stops)
+        return Sx(ctx, body, oracle, enter=enter).run(start, env, stops)
     except SxLimit:
         ctx.bad(rule, template, body.name, 'the function has too many paths for the case analysis (limit reached); rule cannot be decided', body.site())
         return None
@@ -784,18 +831,25 @@ def sx_paths(ctx, rule, template, body, oracle, start=0, stops=(), env=None):
         return None
 
 
-def sx_loop_paths(ctx, rule, template, body, oracle, lo):
+def sx_loop_paths(ctx, rule, template, body, oracle, lo, enter=None):
     """symbolic paths of ONE iteration of loop `lo` (from its `Some` arm back to the header, or out of the function), entered with
     what the code before the loop has defined (paths from the function entry to the loop header under the same oracle)"""
     nextc, header, some_bb, none_bb, blocks = lo
-    pre = sx_paths(ctx, rule, template, body, oracle, 0, {header})
+    pre = sx_paths(ctx, rule, template, body, oracle, 0, {header}, enter=enter)
     if pre is None: return None
     envs = []
     for p in pre:
         if p.end == 'stop' and p.bb == header and p.env not in envs: envs.append(p.env)
     out = []
+    # a local assigned in the loop holds, at the start of an iteration, what an earlier iteration left there: unknown
+    carried = set()
+    for bi in blocks:
+        blk = body.blocks[bi]
+        carried |= {s_['dst']['l'] for s_ in blk['st'] if 'dst' in s_}
+        if blk['term']['k'] == 'call' and blk['term'].get('dst'): carried.add(blk['term']['dst']['l'])
+    envs = [{l: (('undef', l) if l in carried else v) for l, v in env.items()} for env in envs]
     for env in envs[:4] or [{}]:
-        ps = sx_paths(ctx, rule, template, body, oracle, some_bb, {header}, env)
+        ps = sx_paths(ctx, rule, template, body, oracle, some_bb, {header}, env, enter=enter)
         if ps is None: return None
         out += ps
     return out
@@ -1280,8 +1334,17 @@ def parser_rules(ctx):
                     return len(vs) == 2 and vs[0] == vs[1]
                 ctx.check(bool(res) and all(same(r) for r in res), 'C17.bounds/FX/same-value', 'T-CARRY', b.name, 'FX does not store the same value in l and u', b.site())
     # ---- finish(): integer [0,1] => binary
-    b = ctx.method('C17.defaults/finish/anchor', ST, 'finish')
-    if b is not None: finish_rules(ctx, b)
+    # located by what it does -- the loop over the bounded columns that inserts into `binary` -- in State::finish or, when that
+    # helper has been inlined into its caller, in the function of the parser that now holds the loop
+    b = ctx.F.one(ST, 'finish')
+    if b is None:
+        def promotes(pb):
+            return any(c.bb in lo[4] and c.item == 'insert' and 'HashSet::<' in c.name and mps_table_of(pb, c.args[0]) == 'binary' for lo in T.for_loops(pb) for c in pb.calls)
+        hosts = [pb for n, pb in sorted(ctx.F.bodies.items()) if pb.kind == 'fn' and n.startswith('mps::parser::') and promotes(pb)]
+        b = max(hosts, key=lambda pb: len(pb.blocks)) if hosts else None
+    if b is None: ctx.lost('C17.defaults/finish/anchor', '%s::finish (or a loop of the parser that inserts into `binary`)' % ST)
+    else:
+        ctx.fn(b); finish_rules(ctx, b)
 
 # =====================================================================================================
 # the converter (mps/convert.rs)
@@ -1633,51 +1696,117 @@ def site_depends_on(ctx, bodies, bd, a, adt, field, depth=3):
     return False
 
 
+class MemberCase(SxOracle):
+    """the name is a member of the set passed as parameter `par` and of no other set"""
+    def __init__(self, par): self.par = par
+
+    def call(self, sx, node, st):
+        _, item, name, args, bi, occ = node
+        if item == 'contains' and 'HashSet' in name and args:
+            t = sx_table_of(args[0])
+            if isinstance(t, tuple) and t[0] == 'param': return ('const', 'true' if t[1] == self.par else 'false')
+        return None
+
+
+class NamedCase(SxOracle):
+    """the file has a non-empty NAME (`name.is_empty()` is false, `name == ""` is false, its length is positive) and, if given, the
+    objective sense with discriminant `sense`"""
+    def __init__(self, sense=None): self.sense = sense
+
+    @staticmethod
+    def _is_name(v): return any(f == 'name' and of.endswith('parser::Mps') for of, f in sx_fields(v))
+
+    def call(self, sx, node, st):
+        _, item, name, args, bi, occ = node
+        if item == 'is_empty' and args and self._is_name(args[0]): return ('const', 'false')
+        if item in ('eq', 'ne') and len(args) == 2:
+            for x, y in ((args[0], args[1]), (args[1], args[0])):
+                lit = [c for c in sx_walk(y) if c[0] == 'const']
+                if self._is_name(x) and lit and all(re.search(r'^(const )?""$', c[1].strip()) for c in lit): return ('const', 'false' if item == 'eq' else 'true')
+        return None
+
+    def num(self, sx, v, st):
+        if v[0] == 'call' and v[1] in ('len', 'count') and v[3] and self._is_name(v[3][0]): return 4.0
+        return None
+
+    def discr(self, sx, v, st):
+        if self.sense is not None and v[0] == 'field' and v[2] == 'obj_sense' and v[3].endswith('parser::Mps'): return self.sense
+        return None
+
+
 def convert_rules(ctx):
     R = 'C17.convert'
     b = ctx.free_fn(R + '/anchor', 'mps::convert::convert')
     if b is None: return
     cover(ctx, R + '.cover', b, MPS)
-    # the returned instance, read off the value: a struct expression or default() + field assignments alike
-    ps = sx_paths(ctx, R + '/instance', 'T-CARRY', b, SxOracle())
-    if ps is not None:
-        insts = []
+    # the returned instance, read off the VALUE of its fields: a struct expression or default() + field assignments, the small
+    # helpers (convert_description, convert_sense) called or written out in place.  Helpers with a rule family of their own stay
+    # opaque calls; every other crate function called from here is looked through.
+    builders = {'decision_variables': 'convert_dvars', 'objective': 'convert_objective', 'constraints': 'convert_constraints'}
+    def look_through(cb): return cb.hdr.get('item') not in builders.values()
+    def instances(orc):
+        ps = sx_paths(ctx, R + '/instance', 'T-CARRY', b, orc, enter=look_through)
+        if ps is None: return None
+        out = []
         for p in ps:
             if p.end == 'return' and p.value is not None:
-                insts += [a for a in (sx_as_agg(x, 'v1::Instance') for x in sx_walk(p.value) if x[0] in ('agg', 'upd')) if a is not None][:1]
-        ctx.check(len(insts) >= 1, R + '/instance', 'T-CARRY', b.name, 'no v1::Instance is returned', b.site())
-        for f, fn in (('description', 'convert_description'), ('decision_variables', 'convert_dvars'), ('objective', 'convert_objective'), ('constraints', 'convert_constraints'), ('sense', 'convert_sense')):
-            ok = bool(insts) and all(f in a[2] and bool(sx_calls(a[3][a[2].index(f)], fn)) for a in insts)
+                out += [(p, a) for a in (sx_as_agg(x, 'v1::Instance') for x in sx_walk(p.value) if x[0] in ('agg', 'upd')) if a is not None][:1]
+        return out
+    def fld(a, f): return a[3][a[2].index(f)] if f in a[2] else None
+    named = instances(NamedCase())
+    if named is not None:
+        ctx.check(len(named) >= 1, R + '/instance', 'T-CARRY', b.name, 'no v1::Instance is returned', b.site())
+        for f, fn in builders.items():
+            ok = bool(named) and all(fld(a, f) is not None and bool(sx_calls(fld(a, f), fn)) for p, a in named)
             ctx.check(ok, R + '/instance/' + f, 'T-CARRY', b.name, 'Instance.%s does not come from %s' % (f, fn), b.site())
-    # sense
-    sb = ctx.free_fn(R + '.sense/anchor', 'mps::convert::convert_sense')
-    if sb is not None:
-        adt = ctx.F.adt('mps::parser::ObjSense')
-        rows = {}
-        for bi_ in sb.live:
-            t = sb.blocks[bi_]['term']
-            if t['k'] == 'switch' and adt:
-                m = {v: tg for v, tg in t['ts']}
-                for v in adt['variants']:
-                    tg = m.get(v['discr'], t['else'])
-                    others = {m.get(x['discr'], t['else']) for x in adt['variants']} - {tg}
-                    reg = sb.reach([tg], stop=others)
-                    cs = sorted({o['v'] for b2, st in sb.stmts() if b2 in reg for o in st['rv'].get('ops', []) if o['k'] == 'const' and 'Sense::' in o['v']})
-                    rows[v['name']] = [re.search(r'Sense::(\w+)', x).group(1) for x in cs]
-        ctx.check(rows == {'Min': ['Minimize'], 'Max': ['Maximize']}, R + '.sense/mapping', 'T-BRANCHFX', sb.name, 'ObjSense maps to %s' % rows, sb.site())
+        # description: for a file with a (non-empty) NAME the instance has a description whose name is that name
+        def described(p, a):
+            d = sx_strip(fld(a, 'description') or ('undef', 0))
+            if not (d[0] == 'agg' and d[1].endswith('Option::Some') and d[3]): return False
+            dd = sx_as_agg(d[3][0], 'instance::Description')
+            n = sx_strip(fld(dd, 'name') or ('undef', 0)) if dd is not None else ('undef', 0)
+            return n[0] == 'agg' and n[1].endswith('Option::Some') and any(x == (MPS, 'name') or (x[1] == 'name' and x[0].endswith('parser::Mps')) for x in sx_fields(n))
+        ctx.check(bool(named) and all(described(p, a) for p, a in named), R + '/instance/description', 'T-CARRY', b.name, 'for a file with a NAME, Instance.description is not Some(Description { name: Some(that name), .. })', b.site())
+    # sense: Min / Max => the schema numbers of Minimize / Maximize, whichever function holds the mapping
+    adt = ctx.F.adt('mps::parser::ObjSense'); sadt = ctx.F.adt('v1::instance::Sense')
+    want = {'Min': 'Minimize', 'Max': 'Maximize'}; rows = {}; set_ = True
+    if adt and sadt and named is not None:
+        num = {v['name']: float(v['discr']) for v in sadt['variants']}; back = {v: k for k, v in num.items()}
+        for v in adt['variants']:
+            orc = NamedCase(v['discr']); insts = instances(orc)
+            if insts is None: rows = None; break
+            sx = Sx(ctx, b, orc); got = set()
+            for p, a in insts:
+                sv = fld(a, 'sense')
+                if sv is None: set_ = False; continue
+                st = SxState(0, p.env, p.events, p.assume, {})
+                c = sx.conc(sv, st)
+                got.add(back.get(c, sx_str(sv)) if c is not None and not isinstance(c, bool) else sx_str(sv))
+            rows[v['name']] = sorted(got)
+        if rows is not None:
+            ctx.check(set_ and bool(rows), R + '/instance/sense', 'T-CARRY', b.name, 'Instance.sense is not set on every path', b.site())
+            ctx.check(rows == {k: [w] for k, w in want.items()}, R + '.sense/mapping', 'T-BRANCHFX', b.name, 'Instance.sense per ObjSense is %s, expected %s' % (rows, want), b.site())
+    else:
+        ctx.bad(R + '.sense/mapping', 'T-BRANCHFX', b.name, 'ObjSense / v1::instance::Sense not found; the sense mapping cannot be located', b.site())
     # kinds
     kb = ctx.free_fn(R + '.kind/anchor', 'mps::convert::get_dvar_kind')
+    kadt = ctx.F.adt('v1::decision_variable::Kind')
     if kb is not None:
+        # decided on the returned NUMBER for a name that is in exactly one of the sets (parameters: 1 name, 2 integer, 3 binary,
+        # 4 real): an if-chain, early returns, a match on the tuple of tests, `Kind::X as i32` per arm or one cast at the end alike
+        num = {float(v['discr']): v['name'] for v in (kadt or {}).get('variants', [])}
         rows = {}
-        for c in kb.calls:
-            if c.item == 'contains' and 'HashSet' in c.name:
-                p = T.access_path(kb, c.args[0])[1]
-                for g in T.guards_from_call(kb, c):
-                    reg = kb.reach([g.true_bb]) - kb.reach([g.false_bb])
-                    cs = sorted({re.search(r'Kind::(\w+)', o['v']).group(1) for b2, st in kb.stmts() if b2 in reg for o in st['rv'].get('ops', []) if o['k'] == 'const' and 'Kind::' in o['v']})
-                    rows[p] = cs
-        # parameters: 1 name, 2 integer, 3 binary, 4 real
-        ctx.check(rows == {2: ['Integer'], 3: ['Binary'], 4: ['Continuous']}, R + '.kind/mapping', 'T-BRANCHFX', kb.name, 'membership in (integer, binary, real) maps to %s' % rows, kb.site())
+        for par in (2, 3, 4):
+            orc = MemberCase(par); ps = sx_paths(ctx, R + '.kind/mapping', 'T-BRANCHFX', kb, orc)
+            if ps is None: rows = None; break
+            sx = Sx(ctx, kb, orc); got = set()
+            for p_ in ps:
+                if p_.end != 'return': continue
+                c = sx.conc(p_.value, p_) if p_.value is not None else None
+                got.add(num.get(c, sx_str(p_.value)) if c is not None and not isinstance(c, bool) else sx_str(p_.value))
+            rows[par] = sorted(got)
+        if rows is not None:
+            ctx.check(rows == {2: ['Integer'], 3: ['Binary'], 4: ['Continuous']}, R + '.kind/mapping', 'T-BRANCHFX', kb.name, 'membership in (integer, binary, real) maps to %s' % rows, kb.site())
     dv = ctx.free_fn(R + '.kind/dvars/anchor', 'mps::convert::convert_dvars')
     if dv is not None:
         # the call sites may sit in the function or in a closure of an iterator pipeline that is not a loop in the normal form
